@@ -1,11 +1,12 @@
 /-
   C01 (block codecs) — the sample packings of PAF24 and SDS and the XI delta coders lose nothing that the format
-  stores; the OKI/VOX step stays in range; the VOX odd-count behaviour (known finding KF-VOX-ODD) as proved
-  witnesses plus the theorem for even counts.  Property theorems only; helpers in SfProofs/BlockCodecs.lean.
+  stores; the OKI/VOX step stays in range; VOX write calls report the count they were given, whatever its parity (KF-VOX-ODD,
+  repaired; the rule before the repair as `…_old_rule` witnesses).  Property theorems only; helpers in SfProofs/BlockCodecs.lean.
 -/
 import SfProofs.BlockCodecs
+import SfProofs.BlockVoxCarry
 namespace Sf.C01Block
-open Sf Sf.Block Sf.Block.Proofs
+open Sf Sf.Block Sf.Block.Proofs Sf.VoxCarry
 
 /-! ## PAF24: 24 bits in 3 bytes -/
 
@@ -72,32 +73,62 @@ theorem oki_decode_step (st : Oki.St) (code : Nat) :
 /-- the first codes of the reference vector in ima_oki_adpcm.c (`test_codes` 0x08 0x08 0x04 -> 32 0 32 0 32 320) -/
 example : (Oki.decBytes {} [0x08, 0x08, 0x04]).2 = [32, 0, 32, 0, 32, 320] := by decide
 
-/-! ## VOX and odd counts (known finding KF-VOX-ODD) -/
+/-! ## VOX and odd counts (KF-VOX-ODD, repaired: the odd sample of a call is held for the next call / for close) -/
 
-/-- the full statement: a write call reports exactly the number of items it was given -/
-def vox_write_count_full : Prop :=
-  ∀ (st : Oki.St) (xs : List Int), (Oki.writeBlock (xs.length + 1) st xs xs.length).2.2 = xs.length
+/-- the full statement: a write call reports exactly the number of items it was given — any coder state, any held
+    sample, any count (odd or even, longer than the 512-sample pieces or not) -/
+theorem vox_write_count (st : Oki.St) (c : Option Int) (xs : List Int) :
+    (Oki.writeBlock (xs.length + 1) st c xs xs.length).2.2.2 = xs.length := by
+  rw [writeBlock_spec _ st c xs (Nat.lt_succ_self _)]; rfl
 
-/-- witness: three samples are stored as two bytes (a zero sample is appended) and the call reports four -/
-theorem vox_odd_write_pads :
-    (Oki.writeBlock 4 {} [256, 512, 768] 3).2.2 = 4 ∧ (Oki.writeBlock 4 {} [256, 512, 768] 3).2.1.length = 2 ∧
-      (Oki.writeBlock 4 {} [256, 512, 768] 3).2.1 = (Oki.writeBlock 5 {} [256, 512, 768, 0] 4).2.1 := by decide
+/-- non-vacuity: three samples -> one byte, the third sample held, the call reports three; the held sample and one
+    more give the second byte -/
+example : (Oki.writeBlock 4 {} none [256, 512, 768] 3).2.2.2 = 3 ∧ (Oki.writeBlock 4 {} none [256, 512, 768] 3).2.2.1.length = 1 ∧
+    (Oki.writeBlock 4 {} none [256, 512, 768] 3).2.1 = some 768 ∧
+    (Oki.writeBlock 2 (Oki.writeBlock 4 {} none [256, 512, 768] 3).1 (some 768) [1024] 1).2.2.1.length = 1 := by decide
 
-theorem vox_write_count_fails : ¬ vox_write_count_full := by
+/-- the same statement for the rule before the repair -/
+def vox_write_count_full_old : Prop :=
+  ∀ (st : Oki.St) (xs : List Int), (Oki.writeBlockOld (xs.length + 1) st xs xs.length).2.2 = xs.length
+
+/-- old rule, witness: three samples were stored as two bytes (a zero sample appended) and the call reported four -/
+theorem vox_odd_write_pads_old_rule :
+    (Oki.writeBlockOld 4 {} [256, 512, 768] 3).2.2 = 4 ∧ (Oki.writeBlockOld 4 {} [256, 512, 768] 3).2.1.length = 2 ∧
+      (Oki.writeBlockOld 4 {} [256, 512, 768] 3).2.1 = (Oki.writeBlockOld 5 {} [256, 512, 768, 0] 4).2.1 := by decide
+
+theorem vox_write_count_old_rule_fails : ¬ vox_write_count_full_old := by
   intro h
   have := h {} [256, 512, 768]
   revert this
   decide
 
-/-- what holds: an even number of items is reported exactly (the excluded class is exactly KF-VOX-ODD) -/
-theorem vox_write_count_partial (st : Oki.St) (xs : List Int) (n : Nat) (he : n % 2 = 0) :
-    (Oki.writeBlock (n + 1) st xs n).2.2 = n := vox_writeBlock_even (n + 1) st xs n he (by omega)
+/-- old rule: an even number of items was reported exactly (the class of KF-VOX-ODD was exactly the odd counts) -/
+theorem vox_write_count_even_old_rule (st : Oki.St) (xs : List Int) (n : Nat) (he : n % 2 = 0) :
+    (Oki.writeBlockOld (n + 1) st xs n).2.2 = n := vox_writeBlock_even (n + 1) st xs n he (by omega)
 
-example : (Oki.writeBlock 5 {} [256, 512, 768, 1024] 4).2.2 = 4 := by decide
+example : (Oki.writeBlockOld 5 {} [256, 512, 768, 1024] 4).2.2 = 4 := by decide
 
-/-- witness on the read side: asked for three items, `vox_read_block` copies four into the caller's buffer and
-    reports four -/
-theorem vox_odd_read_overcounts :
-    (Oki.readBlock 4 {} [0x12, 0x34, 0x56] 3).2.2.1.length = 4 ∧ (Oki.readBlock 4 {} [0x12, 0x34, 0x56] 3).2.2.2 = 4 := by decide
+/-- the repair changes nothing for a caller that never uses an odd count: on an even number of samples with nothing
+    held, the new rule gives the state, the bytes and the count of the old one and holds nothing -/
+theorem vox_even_unchanged (st : Oki.St) (xs : List Int) (he : xs.length % 2 = 0) :
+    Oki.writeBlock (xs.length + 1) st none xs xs.length =
+      ((Oki.writeBlockOld (xs.length + 1) st xs xs.length).1, none,
+       (Oki.writeBlockOld (xs.length + 1) st xs xs.length).2.1, (Oki.writeBlockOld (xs.length + 1) st xs xs.length).2.2) := by
+  rw [writeBlock_spec _ st none xs (Nat.lt_succ_self _), writeBlockOld_even _ st xs he (Nat.lt_succ_self _)]
+  have h1 : ¬ xs.length % 2 = 1 := by omega
+  simp [writeSpec, evenPart, oddLast, h1]
+
+example : Oki.writeBlock 5 {} none [256, 512, 768, 1024] 4 =
+    ((Oki.writeBlockOld 5 {} [256, 512, 768, 1024] 4).1, none, (Oki.writeBlockOld 5 {} [256, 512, 768, 1024] 4).2.1, 4) := by decide
+
+/-- old rule, witness on the read side: asked for three items, `vox_read_block` copied four into the caller's buffer
+    and reported four -/
+theorem vox_odd_read_overcounts_old_rule :
+    (Oki.readBlockOld 4 {} [0x12, 0x34, 0x56] 3).2.2.1.length = 4 ∧ (Oki.readBlockOld 4 {} [0x12, 0x34, 0x56] 3).2.2.2 = 4 := by decide
+
+/-- the same request now: three items copied and reported, the fourth sample held -/
+theorem vox_odd_read_exact :
+    (Oki.readBlock 4 {} none [0x12, 0x34, 0x56] 3).2.2.2.1.length = 3 ∧ (Oki.readBlock 4 {} none [0x12, 0x34, 0x56] 3).2.2.2.2 = 3 ∧
+      (Oki.readBlock 4 {} none [0x12, 0x34, 0x56] 3).2.1 = (Oki.readBlockOld 4 {} [0x12, 0x34, 0x56] 3).2.2.1.getLast? := by decide
 
 end Sf.C01Block
